@@ -337,7 +337,13 @@ Error CodeHolder::attach(BaseEmitter* emitter) noexcept {
   }
 
   // Reserve the space now as we cannot fail after `on_attach()` succeeded.
-  ASMJIT_PROPAGATE(emitter->on_attach(*this));
+  Error err = emitter->on_attach(*this);
+  if (ASMJIT_UNLIKELY(err != Error::kOk)) {
+    // A failed `on_attach()` rolls back by calling `on_detach()`, which doesn't reset `_code` - the emitter
+    // would look attached (and could never be attached again) although it's not in the list of attached emitters.
+    emitter->_code = nullptr;
+    return err;
+  }
 
   // Make sure CodeHolder <-> BaseEmitter are connected.
   ASMJIT_ASSERT(emitter->_code == this);
